@@ -23,9 +23,30 @@ def oracle_model(res, ast, m, rng, n_env, cap):
     envs = all_envs(lv, cap) if cap else None
     if envs is None:
         envs = [random_env(lv, rng) for _ in range(n_env)]
+        # neighbouring assignments asked right after each other on the same object (an enumeration does that): a leaf
+        # stepping between -2 and -1, and between its two lowest values
+        extra = []
+        for l in lv:
+            lo, hi = int(l.bounds.lower), int(l.bounds.upper)
+            if hi > lo and envs:
+                a, b_ = (-2, -1) if lo <= -2 and hi >= -1 else (lo, lo + 1)
+                base = dict(envs[0])
+                extra += [dict(base, **{l.id: a}), dict(base, **{l.id: b_}), dict(base, **{l.id: a})]
+        envs = envs + extra[:9]
     for env in envs:
         vals = {}
         top = ref_eval_all(m, env, vals)
+        # the library's own evaluation, on this same object, call after call
+        try:
+            lib = {k: v.as_tuple() for k, v in m.evaluate_propositions(dict(env)).items()}
+            lib_top = m.evaluate(dict(env)).as_tuple()
+        except Exception as e:
+            return {"op": "encode", "model": ast_json(ast), "active": True, "env": env, "problem": f"evaluate raised {type(e).__name__}: {str(e)[:120]}"}
+        res.evaluations += 1
+        wrong = [k for k, b_ in lib.items() if k in vals and b_ != (vals[k], vals[k])]
+        if wrong or lib_top != (top, top):
+            return {"op": "encode", "model": ast_json(ast), "active": True, "env": env, "history": [e for e in envs[: envs.index(env)]][-4:],
+                    "problem": f"the library evaluates the model to {lib_top} (nodes {wrong[:3]} differ) where sign*sum>=value gives {top}: the extended assignment the property speaks of is not the one the polyhedron was built for"}
         for active in (True, False):
             res.evaluations += 1
             cols, rows = polys[active]
@@ -127,8 +148,17 @@ def replay(payload):
     m = build(r["model"])
     if "env" not in r:
         print("model", m, "polyhedron", poly_obs(m, r.get("active", True))); return 1
+    for e in r.get("history", []):
+        try: m.evaluate_propositions(dict(e)); m.evaluate(dict(e))
+        except Exception: pass
     vals = {}
     top = ref_eval_all(m, r["env"], vals)
+    try:
+        lib_top = m.evaluate(dict(r["env"])).as_tuple()
+    except Exception as e:
+        print("evaluate raised", type(e).__name__, e); return 1
+    if lib_top != (top, top):
+        print("model", m, "env", r["env"], "library evaluates to", lib_top, "arithmetic truth function gives", top); return 1
     cols, rows = poly_obs(m, r["active"])
     x = [vals.get(c) for c, _ in cols]
     ok = None not in x and all(row[0] <= sum(a * b_ for a, b_ in zip(row[1:], x)) for row in rows)
